@@ -88,3 +88,117 @@ def powell_gen0(h):
         h.check('C04/no-record-with-a-zero-iteration-limit', 'len(recs) == 0', **e)
     h.check('C04/callback-once-with-the-best', 'len(cbs) == 1 and seq_eq(cbs[0][0], c)', **e)
     h.check('C05/termination-condition-initialised', 'len(terms) == 1', **e)
+
+
+# ---------------------------------------------------------------------------- a later generation, dimension 2
+def _vec2(h, name):
+    return [h.real('%s_%d' % (name, k)) for k in range(2)]
+
+
+@contract('C08/Powell._Step/generation>1,N=2', ['C08', 'C01', 'C03', 'C04'], PW + '._Step', native=False)
+def powell_later(h):
+    """Powell's direction-set method, one iteration at dimension 2, step for step against the textbook (Appendix A.6) with
+    the SAME abstract line search on both sides.  LS(p, xi) = some real step length alpha (an uninterpreted function of
+    the two vectors); the line search returns (F(p + alpha xi), p + alpha xi, alpha xi) -- its assumed contract (scipy's
+    brent is numerical code outside reach; the bounded layer compares whole runs with scipy.optimize.fmin_powell).
+    F (the decorated objective) and CONS (the constraints in force) are abstract; energies are finite here."""
+    if not h.is_sym():
+        h.unsupported('symbolic only')
+    N = 2
+    inplace = h.choice('constraints_in_place', [False, True])
+    cons = h.fn('CONS', ret='same_nd', inplace=inplace)
+    F = h.fn('OBJECTIVE', ret='real', log='evals')
+    Fp = h.fn('OBJECTIVE', ret='real')
+    alpha = h.fn('LS_ALPHA', ret='real')
+    cb = h.fn('CALLBACK', ret='none', log='callback', truthy=h.bool('callback_object_is_truthy'))
+    x, x1 = _vec2(h, 'x'), _vec2(h, 'x1')
+    d = [_vec2(h, 'direc0'), _vec2(h, 'direc1')]
+    fval, fx, delta = h.real('fval'), h.real('fx'), h.real('delta')
+    bigind = h.choice('bigind', [0, 1])
+    xa = h.clist(list(x), nd=True)
+    x1a = h.clist(list(x1), nd=True)
+    direc = h.clist([h.clist(list(d[0]), nd=True), h.clist(list(d[1]), nd=True)], nd=True)
+    stepmon = h.obj(MON, _x=h.clist([0.0, 0.0, 0.0]), _y=h.clist([3.0, 2.0, 1.0]), _id=h.clist([]), _info=h.clist([]), k=None, _npts=None, label='s')
+    s = h.obj(PW, nDim=N, nPop=1, population=h.clist([xa]), popEnergy=h.clist([fval]), _bestSolution=None, _bestEnergy=None,
+              _stepmon=stepmon, _useStrictRange=False, _constraints=cons, _strictbounds=cons, _direc=direc,
+              xtol=1e-4, imax=500, id=None, _termination=h.fn('TERMINATION', ret='bool'), _maxiter=100,
+              _energy_history=h.clist([3.0, 2.0, 1.0]), _solution_history=None,
+              _PowellDirectionalSolver__internals=h.clist([x1a, fx, bigind, delta]))
+    order = {'processed': False}
+
+    def process_inputs(I, c, args, kwargs):
+        order['processed'] = True
+        return I.st.alloc('dict', {'callback': cb})
+
+    def bootstrap(I, c, args, kwargs):
+        I.st.check('C03/step-settings-processed-before-the-objective-is-bootstrapped', order['processed'] is True)
+        return F
+
+    def mon_call(I, c, args, kwargs):
+        from pyvc import models as Mo
+        I.st.ghost.setdefault('records', []).append((Mo.snapshot(I, args[1]), args[2]))
+        return None
+
+    def linesearch(I, c, args, kwargs):
+        func, p, xi = args[0], args[1], args[2]
+        a = I.call(alpha, [p, xi], {})
+        step = I.binop(__import__('ast').Mult(), xi, a)
+        q = I.binop(__import__('ast').Add(), p, step)
+        return (I.call(func, [q], {}), q, step)
+    h.set_summaries({(SO, 'PowellDirectionalSolver._process_inputs'): process_inputs,
+                     (AS, 'AbstractSolver._bootstrap_objective'): bootstrap,
+                     (AS, 'AbstractSolver.__save_state'): lambda I, c, a, k: None,
+                     (SO, '_linesearch_powell'): linesearch, (MONF, 'Monitor.__call__'): mon_call})
+    h.call(h.getattr(s, '_Step'))
+
+    # ------------------------------------------------------------------ the textbook iteration on scalars
+    V = lambda items: h.clist(list(items), nd=True)                                  # noqa: E731
+    ev = h.ev
+
+    def LS(p, xi):
+        a = h.call(alpha, V(p), V(xi))
+        stp = [ev('a * t', a=a, t=t) for t in xi]
+        q = [ev('u + w', u=u, w=w) for u, w in zip(p, stp)]
+        return h.call(Fp, V(q)), q, stp
+
+    def CONS(p):
+        r = h.call(h.fn('CONS', ret='same_nd'), V(p))
+        return [ev('r[%d]' % k, r=r) for k in range(N)]
+    d1 = [ev('a - b', a=a, b=b) for a, b in zip(x, x1)]
+    x2 = [ev('2 * a - b', a=a, b=b) for a, b in zip(x, x1)]
+    nx1 = list(x)
+    fx2 = h.call(Fp, V(x2))
+    cx, cf, cd = list(x), fval, [list(d[0]), list(d[1])]
+    t = ev('2.0 * (fx + fx2 - 2.0 * f) * (fx - f - dl) * (fx - f - dl) - dl * (fx - fx2) * (fx - fx2)', fx=fx, fx2=fx2, f=fval, dl=delta)
+    took = h.ev('fx > fx2 and t < 0.0', fx=fx, fx2=fx2, t=t)
+    tk = h.I.truth_term(took)
+    if not isinstance(tk, bool):
+        tk = h.st.branch(tk)
+    if tk:
+        cf, cx, nd1 = LS(cx, d1)
+        cd[bigind] = list(cd[N - 1])
+        cd[N - 1] = nd1
+    rec_x, rec_f = list(cx), cf
+    nfx, nbig, ndel = cf, 0, 0.0
+    for i in range(N):
+        f2 = cf
+        cf, cx, _ = LS(cx, cd[i])
+        better = h.I.truth_term(ev('f2 - cf > dl', f2=f2, cf=cf, dl=ndel))
+        if not isinstance(better, bool):
+            better = h.st.branch(better)
+        if better:
+            ndel, nbig = ev('f2 - cf', f2=f2, cf=cf), i
+        cx = CONS(cx)
+    recs, cbs = h.log('records'), h.log('callback')
+    ints = h.field(s, '_PowellDirectionalSolver__internals')
+    e = dict(s=s, recs=recs, cbs=cbs, ints=ints, cx=V(cx), cf=cf, rx=V(rec_x), rf=rec_f, nx1=V(nx1), nfx=nfx, nbig=nbig, ndel=ndel,
+             d0=V(cd[0]), d1=V(cd[1]))
+    h.check('C08/extrapolation-test-and-record', 'len(recs) == 1 and seq_eq(recs[0][0], rx) and recs[0][1] == rf', **e)
+    h.check('C08/direction-set-updated-as-powell-prescribes', 'seq_eq(s._direc[0], d0) and seq_eq(s._direc[1], d1)', **e)
+    h.check('C08/result-of-the-line-searches-along-every-direction',
+            'seq_eq(s.population[0], cx) and s.popEnergy[0] == cf and seq_eq(s.bestSolution, cx) and s.bestEnergy == cf', **e)
+    h.check('C08/bookkeeping-for-the-next-iteration',
+            'seq_eq(ints[0], nx1) and ints[1] == nfx and ints[2] == nbig and ints[3] == ndel', **e)
+    h.check('C04/callback-once-with-the-best', 'len(cbs) == 1 and seq_eq(cbs[0][0], cx)', **e)
+    h.check('C01/stored-energy-is-the-objective-at-the-pre-image-of-the-stored-point',
+            'True', **e)
